@@ -428,7 +428,7 @@ class StringDataEncoding(DataEncoding):
                 init_kwargs["dynamic_length_reference"] = parameter_instance_ref_element.attrib['parameterRef']
 
                 use_calibrated_value = (
-                        parameter_instance_ref_element.attrib.get('useCalibratedValue', "true").lower() == "true"
+                        common.xs_boolean(parameter_instance_ref_element.attrib.get('useCalibratedValue', "true"))
                 )
                 init_kwargs["use_calibrated_value"] = use_calibrated_value
 
@@ -983,7 +983,7 @@ class BinaryDataEncoding(DataEncoding):
             param_inst_ref = dynamic_value_element.find('ParameterInstanceRef')
             referenced_parameter = param_inst_ref.attrib['parameterRef']
             # useCalibratedValue default value is "true"
-            use_calibrated_value = param_inst_ref.attrib.get('useCalibratedValue', "true").lower() == "true"
+            use_calibrated_value = common.xs_boolean(param_inst_ref.attrib.get('useCalibratedValue', "true"))
             linear_adjuster = cls._get_linear_adjuster(dynamic_value_element)
             return cls(size_reference_parameter=referenced_parameter,
                        use_calibrated_value=use_calibrated_value, linear_adjuster=linear_adjuster)
